@@ -43,6 +43,8 @@ VC = [0.0, 1.0, 1j, -0.5 + 2j]
 S_REAL = [0.0, 1.0, -1.0, 2.0, 0.5, -3.0]
 S_CPLX = [1j, 1 + 1j, -0.5j]
 WA = [1.0, 2.0, 0.5, 4.0, 0.25, 3.0, 1.5, 0.75]        # per-entry weights (tensor spaces)
+WAI = [1, 2, 3, 4, 1, 3, 2, 5]                          # per-entry weights, integer spaces
+S_INT = [0, 1, -1, 2, -3]                               # scalars on integer spaces
 PWA = [2.0, 0.5, 1.5, 1.0, 4.0]                         # per-component weights (product spaces)
 # uneven box, sides 1.75, 3.25, 0.75: no cell side and no cell volume is 1 for any enumerated
 # shape / boundary choice (the unit-cell regime is enumerated on purpose by 'cell1'/'cellinv')
@@ -72,6 +74,7 @@ class Node(object):
     has_inner = True
     has_norm = True
     judge = True        # False: the documentation does not define the formula here
+    integer = False     # integer dtype: all alphabets are doubled (even integers), integer scalars
     volume = None       # domain volume where ||one||^2 = volume is promised
 
     def make(self, flat, role='x'):
@@ -100,6 +103,7 @@ class Diag(Node):
         self.n = int(np.prod(self.shape))
         self.cplx = self.dtype.kind == 'c'
         self.single = self.dtype in (np.dtype('float32'), np.dtype('complex64'))
+        self.integer = self.dtype.kind in 'iu'
         self.W = np.asarray(W, dtype=float).ravel()
         self.p = p
         self.lay = lay
@@ -180,6 +184,8 @@ def _real_dtype(dt):
 def _mk_space(shape, dt, **kw):
     dt = np.dtype(dt)
     shape = tuple(shape)
+    if dt.kind in 'iu':
+        return odl.tensor_space(shape if len(shape) > 1 else shape[0], dtype=dt, **kw)
     if dt.kind == 'c':
         return odl.cn(shape if len(shape) > 1 else shape[0], dtype=dt, **kw)
     return odl.rn(shape if len(shape) > 1 else shape[0], dtype=dt, **kw)
@@ -198,6 +204,12 @@ def build_tensor(cfg):
         c = float(wk[1:])
         kw['weighting'] = c
         W = c * np.ones(n)
+    elif dt.kind in 'iu':                   # integer space: weights must be castable to it
+        w = np.array([WAI[i % len(WAI)] for i in range(n)], dtype=dt).reshape(shape)
+        if wk == 'arrF':
+            w = np.asfortranarray(w)
+        kw['weighting'] = w
+        W = np.array(w, dtype=float, order='C').ravel()
     else:                                   # 'arr' / 'arrF': per-entry array of the real dtype
         w = np.array([WA[i % len(WA)] for i in range(n)], dtype=_real_dtype(dt)).reshape(shape)
         if wk == 'arrF':
@@ -308,10 +320,40 @@ def build_prod(cfg):
     return Prod(space, parts, w, p)
 
 
+def build_npyfree(cfg):
+    """Spaces whose inner= / norm= / dist= is one of the documented free functions
+    npy_weighted_inner / npy_weighted_norm / npy_weighted_dist (same documented formulas)."""
+    from odl.space.npy_tensors import npy_weighted_inner, npy_weighted_norm, npy_weighted_dist
+    shape = tuple(cfg['shape'])
+    n = int(np.prod(shape))
+    dt = np.dtype(cfg['dtype'])
+    p = _p(cfg['p'])
+    if cfg['w'].startswith('c'):
+        w = float(cfg['w'][1:])
+        W = w * np.ones(n)
+    else:
+        w = np.array([WA[i % len(WA)] for i in range(n)], dtype=_real_dtype(dt)).reshape(shape)
+        W = np.array(w, dtype=float).ravel()
+    which = cfg['which']
+    if which == 'inner':
+        kw = {'inner': npy_weighted_inner(w)}
+    elif which == 'norm':
+        kw = {'norm': npy_weighted_norm(w, exponent=p)}
+    else:
+        kw = {'dist': npy_weighted_dist(w, exponent=p)}
+    node = Diag(_mk_space(shape, dt, **kw), shape, dt, W, p, 'C')
+    node.exact = True
+    node.has_inner = which == 'inner'
+    node.has_norm = which in ('inner', 'norm')
+    return node
+
+
 def build(cfg):
     k = cfg['kind']
     if k == 'tensor':
         return build_tensor(cfg)
+    if k == 'npyfree':
+        return build_npyfree(cfg)
     if k == 'discr':
         return build_discr(cfg)
     if k == 'prod':
@@ -430,6 +472,15 @@ def vectors(node, scope):
     scope 'q': all of V3^n for n <= 2 (VC^1 for complex n = 1); packed vectors otherwise.
     """
     n, cplx = node.n, node.cplx
+    if node.integer:
+        mode, vecs, pairs, labels = _vectors(node, scope)
+        vecs = [2 * v for v in vecs]
+        return mode, vecs, pairs, [str(_l(v)) for v in vecs]
+    return _vectors(node, scope)
+
+
+def _vectors(node, scope):
+    n, cplx = node.n, node.cplx
     if n == 0:
         return 'empty', [np.zeros(0)], [(0, 0)], ['()']
     small = ((not cplx and n <= 3) or (cplx and n <= 2)) if scope == 't' else \
@@ -443,7 +494,7 @@ def vectors(node, scope):
         idx = range(len(vecs))
         return ('all-of-V^%d' % n, vecs, [(i, j) for i in idx for j in idx],
                 [str(v.tolist()) for v in vecs])
-    m = 6 if n < 99 else 4
+    m = 6 if n <= 12 else 4
     pats = [pattern(n, k, cplx) for k in range(m)]
     ks = sorted(set([0, 1, n // 2, n - 2, n - 1])) if n > 16 else list(range(n))
     bas = [unit(n, k, cplx) for k in ks]
@@ -451,7 +502,9 @@ def vectors(node, scope):
     labels = ['pattern(%d,%d)' % (n, k) for k in range(m)] + ['e_%d' % k for k in ks] + ['zero']
     pairs = [(i, j) for i in range(m) for j in range(m)]
     for b in range(len(bas)):
-        pairs += [(m + b, 0), (0, m + b), (1, m + b), (m + b, 1)]
+        pairs += [(m + b, 0), (1, m + b)]
+        if b < 3:
+            pairs += [(0, m + b), (m + b, 1)]
     z = len(vecs) - 1
     pairs += [(z, 0), (0, z), (2, z), (z, 2)]
     if n <= 24:
@@ -512,7 +565,7 @@ def check_node(node, ctx, describe, scope='t'):
     tol_norm = tol_sum if (not node.cplx and p in (1.0, INF)) else tol_pow
     mode, vecs, pairs, lab = vectors(node, scope)
     cplx = node.cplx
-    scal = S_REAL + (S_CPLX if cplx else [])
+    scal = S_INT if node.integer else S_REAL + (S_CPLX if cplx else [])
     pairset = set(pairs)
 
     def D(**kw):
@@ -613,7 +666,7 @@ def check_node(node, ctx, describe, scope='t'):
                 ctx.report('cauchy_schwarz_violated',
                            lambda: D(x=lab[i], y=lab[j], inner=a, norm_x=N[i], norm_y=N[j]))
             # linearity in the first argument: <s x + z, y> = s <x, y> + <z, y>
-            if (zi, j) in I and (mode == 'packed' or cnt % 3 == 0):
+            if (zi, j) in I and cnt % (2 if mode == 'packed' else 3) == 0:
                 s = scal[cnt % len(scal)]
                 zf = vecs[zi]
                 lf = s * xf + zf
@@ -795,6 +848,9 @@ def site_of(cfg):
                                                 _pcls(cfg['p']))
     if k == 'custom':
         return 'custom[%s=,%s]' % (cfg['which'], cfg['base'])
+    if k == 'npyfree':
+        return 'npy_weighted_%s[w=%s,%s,%s]' % (cfg['which'], _wcls(cfg['w']), _pcls(cfg['p']),
+                                               cfg['dtype'])
     if k == 'empty':
         return 'ProductSpace[empty,%s]' % cfg['how']
     raise KeyError(k)
@@ -837,6 +893,13 @@ def _tensor_configs(thorough):
                         continue
                     for p in ps:
                         out.append(T(sh, dt, w, p, lay))
+    # integer spaces (field: real numbers; inner, norm and dist are defined)
+    for sh, lays in (([3], ['C']), ([2, 2], ['C', 'F'])) + (
+            (([100], ['C']), ([2, 3], ['FC', 'S'])) if thorough else ()):
+        for lay in lays:
+            for w in ['none', 'c0.5', 'c2.0', 'arr']:
+                for p in ps:
+                    out.append(T(sh, 'int64', w, p, lay))
     # size regimes: < 100 (np.dot), 100 ... 50 000, > 50 000 (np.tensordot), BLAS nrm2
     big = [([100], 'C'), ([50001], 'C'), ([3, 16667], 'F')]
     if thorough:
@@ -861,7 +924,7 @@ def _discr_configs(thorough):
                 for p in ps:
                     out.append(DS([n], [b], ext, 'float64', 'default', p))
                 for dt in ('complex128', 'float32', 'complex64'):
-                    for p in ([2, 1.5] if not thorough else ps):
+                    for p in ([2, 1.5] if not thorough else [2, 1.5, 'inf']):
                         if ext == 'unit' and not thorough:
                             continue
                         out.append(DS([n], [b], ext, dt, 'default', p))
@@ -875,7 +938,7 @@ def _discr_configs(thorough):
             for ext in (('wide', 'cell1', 'cellinv', 'unit') if thorough
                         else ('wide', 'cell1', 'cellinv')):
                 for p in ps:
-                    if not thorough and ext != 'wide' and p not in (2, 1.5):
+                    if ext != 'wide' and p not in ((2, 1.5, 1) if thorough else (2, 1.5)):
                         continue
                     out.append(DS(sh, bd, ext, 'float64', 'default', p))
             if thorough or max(sh) <= 2:
@@ -1000,6 +1063,14 @@ def _custom_configs(thorough):
     for b in bases:
         for which in ('inner', 'norm', 'dist'):
             out.append({'kind': 'custom', 'base': b, 'which': which})
+    for sh, dt in (([3], 'float64'), ([2], 'complex128'), ([2, 2], 'float32')):
+        for w in ('c2.0', 'arr'):
+            out.append({'kind': 'npyfree', 'which': 'inner', 'shape': sh, 'dtype': dt, 'w': w,
+                        'p': 2})
+            for which in ('norm', 'dist'):
+                for p in (PS_T if thorough else PS_Q):
+                    out.append({'kind': 'npyfree', 'which': which, 'shape': sh, 'dtype': dt,
+                                'w': w, 'p': p})
     return out
 
 
@@ -1038,6 +1109,11 @@ def _describe(cfg):
         return 'ProductSpace %s weighting=%s exponent=%s' % (cfg['name'], cfg['w'], cfg['p'])
     if k == 'custom':
         return 'custom %s= on %s' % (cfg['which'], cfg['base'])
+    if k == 'npyfree':
+        return '%s=npy_weighted_%s(%s%s) shape=%s dtype=%s' % (
+            cfg['which'], cfg['which'], cfg['w'],
+            '' if cfg['which'] == 'inner' else ', exponent=%s' % cfg['p'],
+            tuple(cfg['shape']), cfg['dtype'])
     return k
 
 
@@ -1116,9 +1192,11 @@ def meta(tier):
     thorough = tier == 'thorough'
     return {
         'rule': 'one state = one space configuration (tensor | uniform_discr | ProductSpace tree '
-                '| custom callables). Inside a state: ALL ordered pairs of V^n when the space has '
-                '<= 3 real / <= 2 complex entries (small scope), else all ordered pairs of 6 (4 for '
-                'n >= 99) packed dyadic vectors plus basis vectors and zero; the Gram matrix over '
+                '| custom callables | npy_weighted_* free functions). Inside a state: ALL ordered '
+                'pairs of V^n when the space has %s entries (small scope), else all ordered pairs '
+                'of 6 (4 for n > 12) packed dyadic vectors plus basis vectors and zero (integer '
+                'spaces: the same alphabets doubled); the Gram matrix over '
+                % ('<= 3 real / <= 2 complex' if thorough else '<= 2 real / 1 complex') +
                 'the complete real basis (e_k, i e_k) is compared entry by entry with the '
                 'reference weights when it has <= 16 rows (diagonal + first off-diagonals '
                 'otherwise), which decides the inner product for all inputs by sesquilinearity; '
@@ -1127,10 +1205,11 @@ def meta(tier):
                 'distinct = distinct (site, mode, outcome, executed-line signature of the '
                 'anchored functions)',
         'bounds': {
-            'V(n<=2)': V5, 'V(n=3)': V3, 'V complex': [str(v) for v in VC],
+            'V': ({'n<=2': V5, 'n=3': V3} if thorough else {'n<=2': V3}),
+            'V complex': [str(v) for v in VC],
             'packed alphabet': AL, 'scalars': S_REAL + [str(s) for s in S_CPLX],
             'exponents': PS_T if thorough else PS_Q,
-            'dtypes': ['float64', 'complex128', 'float32', 'complex64'],
+            'dtypes': ['float64', 'complex128', 'float32', 'complex64', 'int64 (tensor spaces)'],
             'tensor layouts': ['C', 'F', 'x F / y C', 'strided view'],
             'tensor sizes': 'all shapes with <= 6 entries listed in _tensor_configs; 99, 100, '
                             '50000, 50001, 3x16667' if thorough else
